@@ -20,6 +20,8 @@ REFS_A = [
     "refs/notes/commits", "refs/notesy", "refs/remotes/origin/main", "refs/remotes/origin/foo",
     "refs/remotes/up/main", "refs/remote/x", "refs/foo", "refs/foobar", "refs/foo.bar", "refs/x/heads/main",
     "refs/heads/main2", "refs/Heads/main", "refs/tagsx", "refs/heads/fo",
+    # legal names with characters that Unicode (but not git) counts as white space: the name ends where the line ends
+    "refs/heads/foo\u3000bar", "refs/heads/feature\u00a0x/y", "refs/tags/v1\u2003beta", "refs/remotes/origin\u2028/x",
 ]
 REFS_B = [
     "refs/stash/x", "refs/heads/foo/bar", "refs/heads/foo/baz/q", "refs/foo/bar", "refs/notes", "refs/tags/v1/x",
@@ -112,7 +114,7 @@ def setup_repo(path, refs):
         m.refs[r] = c
     gitdir = G.write_model(m, path, packed_refs=True)
     # self-check: git lists exactly these refs
-    out = G.rgit(gitdir, "for-each-ref", "--format=%(refname)").stdout.decode().split()
+    out = G.rgit(gitdir, "for-each-ref", "--format=%(refname)").stdout.decode().split("\n")[:-1]
     if sorted(out) != sorted(refs):
         raise R.Inconclusive("generator: for-each-ref disagrees: %r" % (set(out) ^ set(refs)))
     return gitdir
